@@ -1,6 +1,7 @@
 (* Properties_C08.v — C08: coroutine mutex, FIFO hand-off and no lost request.
    Statements only; proofs are `exact <lemma of MutexProofs>`.  Same model and vocabulary as Properties_C07. *)
 From Cocls Require Import Base BaseProofs MutexDefs MutexProofs MutexSched MutexObs.
+From Cocls Require MutexOwnDefs MutexOwnProofs.
 Local Open Scope Z_scope.
 
 (* first come, first served: the grants are a prefix of the publishing CASes; the pending requests are, in
@@ -66,6 +67,19 @@ Theorem c08_final_block : forall ops s, reachable ops s -> (forall t, enabled s 
   (forall c, tpc (gtask s c) = PDone) /\ alog s = glog s.
 Proof. exact final_block. Qed.
 Print Assumptions c08_final_block.
+
+(* ownership objects: every way of giving an ownership up (release(), destruction, being overwritten by a move
+   assignment or by the grant of a callback request) unlocks or hands over exactly once - the counting invariant
+   "objects holding m (+ a grant in flight) = [m is locked]" is preserved by every operation -, so once no object
+   holds anything every mutex is free again and no request is left pending *)
+Theorem c08_ownership_invariant : forall s op, MutexOwnProofs.OK s -> MutexOwnProofs.OK (fst (MutexOwnDefs.wstep s op)).
+Proof. exact MutexOwnProofs.wstep_inv. Qed.
+Print Assumptions c08_ownership_invariant.
+
+Theorem c08_all_released_free : forall s, MutexOwnProofs.wreach s -> (forall j, MutexOwnDefs.gslot s j = None) ->
+  forall m, MutexOwnDefs.locked (MutexOwnDefs.gmx s m) = false /\ MutexOwnDefs.waitq (MutexOwnDefs.gmx s m) = [].
+Proof. exact MutexOwnProofs.own_released_free. Qed.
+Print Assumptions c08_all_released_free.
 
 (* the invariant behind all of this is inductive over every step of every thread *)
 Theorem c08_invariant_inductive : forall s t, SInv s -> enabled s t = true -> SInv (fst (fst (tstep s t))).
